@@ -95,6 +95,7 @@ type C14Case struct {
 	Graph      string   `json:"graph,omitempty"` // include graph shape
 	Flags      string   `json:"flags"`           // default | valid | hostile
 	Tags       []string `json:"tags,omitempty"`  // further generator labels
+	Procs      string   `json:"procs,omitempty"` // GOMAXPROCS for the run ("" = all CPUs): termination must not depend on the CPU count
 }
 
 func init() { Register("C14", "clean-failure", checkC14) }
@@ -287,7 +288,11 @@ func checkC14(c C14Case) (o Outcome) {
 
 	dir, cleanup := c14Materialise(c)
 	defer cleanup()
-	r := knutio.Run(knutio.Opts{Dir: dir, Prefix: []string{"prlimit", "--as=" + c14AddressSpace}}, c.Args...)
+	var env []string
+	if c.Procs != "" {
+		env = []string{"GOMAXPROCS=" + c.Procs}
+	}
+	r := knutio.Run(knutio.Opts{Dir: dir, Env: env, Prefix: []string{"prlimit", "--as=" + c14AddressSpace}}, c.Args...)
 	o.Evals = 1
 	if r.Exit == -2 {
 		panic("C14: could not start knut: " + r.Stderr)
@@ -1177,6 +1182,7 @@ func drawC14(t *rapid.T) C14Case {
 	d := &c14Draw{t: t, c: &c}
 	c.Cmd = c14Pick(t, "cmd", "check", "check-write", "balance", "balance", "balance", "print", "format", "infer", "transcode", "returns", "weights")
 	c.Flags = c14Pick(t, "flagMode", "default", "valid", "valid", "hostile", "hostile")
+	c.Procs = c14Pick(t, "procs", "", "", "", "1", "2", "3")
 	if c.Flags == "hostile" {
 		// hostile values that survive flag parsing only matter when the journal loads
 		c.Content = c14Pick(t, "contentForHostileFlags", "valid", "valid", "valid", "valid", "graph", "odd", "empty", "syntax", "mutated")
